@@ -71,7 +71,9 @@ func c14Dynamic(rt *rapid.T) (string, gast.Expr, bool) {
 	case 1:
 		if len(strs) > 0 {
 			h := strs[rapid.IntRange(0, len(strs)-1).Draw(rt, "dynamic_loc")]
-			return "dynamic_key", gast.P("F", "M").At(h.Mk()), true
+			// (a map no rule writes: a computed key on a written map would be a second spelling of a
+			// written location, which the engine's invalidation does not follow - DESIGN 2.5 R2)
+			return "dynamic_key", gast.P("F", "ROM").At(h.Mk()), true
 		}
 	default:
 		if len(ints) > 0 {
